@@ -17,8 +17,8 @@ ALL = [cg.BASIC, cg.COMPOUND, cg.ORTH, cg.FINAL, cg.SH, cg.DH]
 LEVELS = {
     'quick': [
         {'name': 'L1-N3-M2-1fault', 'N': 3, 'M': 2, 'faults': 1, 'budget_s': 90},
-        {'name': 'L2-N4-M1-1structural', 'N': 4, 'M': 1, 'faults': 1, 'fault_set': 'structural', 'budget_s': 120},
-        {'name': 'L3-N3-M1-2faults', 'N': 3, 'M': 1, 'faults': 2, 'budget_s': 90},
+        {'name': 'L2-N4-M1-1structural', 'N': 4, 'M': 1, 'faults': 1, 'fault_set': 'structural', 'positions': 1, 'budget_s': 120},
+        {'name': 'L3-N3-M1-2faults', 'N': 3, 'M': 1, 'faults': 2, 'positions': 1, 'budget_s': 90},
     ],
     'thorough': [
         {'name': 'L1-N4-M2-1fault', 'N': 4, 'M': 2, 'faults': 1, 'budget_s': 1800},
@@ -269,7 +269,7 @@ def harness(g, chart, level, canary=False):
     nfaults = 15 if level.get('fault_set') == 'structural' else len(FAULTS)   # FAULTS[:15] depend on the hierarchy
     f1 = g.choice('fault1', nfaults)
     if f1:
-        p1 = g.choice('pos1', 2)
+        p1 = g.choice('pos1', level.get('positions', 2))
         if not inject(FAULTS[f1], p1, doc, nodes, cm):
             return
         applied.append((FAULTS[f1], p1))
